@@ -12,7 +12,14 @@ def famOf : String → Option Family
   | "if" => some .ifChain | "elseif" => some .elseIf | "while" => some .whileChain | "index" => some .index
   | "call" => some .call | "recur" => some .recur | "map" => some .mapNest | "regex" => some .regex
   | "dollar" => some .dollar | "getline" => some .getline | "pipe" => some .pipe | "incl" => some .incl | "seq" => some .seq
-  | _ => none
+  | "chainfree" => some .chainFree
+  | s =>
+    -- recurpad:A,P,K
+    match s.splitOn ":" with
+    | ["recurpad", r] => match (r.splitOn ",").map (·.toNat?) with
+      | [some a, some p, some k] => some (.recurPad a p k)
+      | _ => none
+    | _ => none
 
 def kindName : Kind → String
   | .incl => "incl" | .blockParse => "block_parse" | .exprParse => "expr_parse"
